@@ -1303,6 +1303,21 @@ func (cs *callSite) modRefKinds(st *State) []modTarget {
 	return out
 }
 
+func (cs *callSite) recvSliceRefs(st *State) []string {
+	if !cs.ct.ModifiesRecvSlices || cs.fn == nil || len(cs.args) == 0 {
+		return nil
+	}
+	pt, ok := cs.fn.Params[0].Type().Underlying().(*types.Pointer)
+	if !ok {
+		return nil
+	}
+	var out []string
+	for _, off := range sliceSlots(pt.Elem(), 0) {
+		out = append(out, fmt.Sprintf("(sref %s)", sel(st.H["L"], fmt.Sprintf("(pref %s)", cs.args[0]), fmt.Sprintf("(+ (poff %s) %d)", cs.args[0], off))))
+	}
+	return out
+}
+
 func (cs *callSite) modRefs(st *State) []string {
 	var out []string
 	for _, m := range cs.ct.Modifies {
@@ -1315,5 +1330,5 @@ func (cs *callSite) modRefs(st *State) []string {
 		}
 		out = append(out, r)
 	}
-	return out
+	return append(out, cs.recvSliceRefs(st)...)
 }
